@@ -40,8 +40,8 @@ pub fn op(seek_weight: u32) -> BoxedStrategy<Op> {
 /// documents for history checks: mostly well-formed, FASTQ also with one defect
 pub fn history_input(f: Format) -> BoxedStrategy<B> {
     match f {
-        Format::Fasta => prop_oneof![6 => gen::fasta_doc_with(8, 12), 1 => gen::fasta_doc_with(30, 40), 1 => gen::byte_soup(f)].boxed(),
-        Format::Fastq => prop_oneof![4 => gen::fastq_valid_doc(8), 3 => gen::fastq_doc_with(8, false), 1 => gen::fastq_valid_doc(30), 1 => gen::byte_soup(f)].boxed(),
+        Format::Fasta => prop_oneof![60 => gen::fasta_doc_with(8, 12), 10 => gen::fasta_doc_with(30, 40), 10 => gen::byte_soup(f), 1 => gen::big_input(f)].boxed(),
+        Format::Fastq => prop_oneof![40 => gen::fastq_valid_doc(8), 30 => gen::fastq_doc_with(8, false), 10 => gen::fastq_valid_doc(30), 10 => gen::byte_soup(f), 1 => gen::big_input(f)].boxed(),
     }
 }
 
